@@ -206,6 +206,11 @@ func (c *Crew) SetMachine(ctx context.Context, mid string, src *crew.SpecSource,
 		// that machine's state, and it's not deleted.)
 		c.change(mid).State = m.State.Copy()
 		c.change(mid).Deleted = false
+		if src == nil {
+			// Nothing to run.  Say so: a store might still
+			// have the source of that deleted machine.
+			c.change(mid).SpecSrc = &crew.SpecSource{}
+		}
 	} else if state != nil {
 		// Update the machine (and don't just report the change).
 		m.State = DefaultState(state)
